@@ -103,6 +103,7 @@ func runC19(p *eng.Prog, r *eng.Report, tier string) {
 	c19Delegation(c)
 	decoderSkipTypestate(c, "C19.9", inC19, 8)
 	// ---- C19.12 encoders emit field values verbatim
+	c19BlankLines(c, "C19.13")
 	nle := lossyEmission(c, "C19.12", inC19)
 	c.r.Floor("C19.12", "emitted texts in the payload encoders", nle, 40)
 	// C19.11 tokens of an xml.Decoder are not replayed to the wire as they
